@@ -1358,6 +1358,17 @@ fn run_case(rep: &mut Report, case: u64) {
 }
 
 pub fn run(rep: &mut Report) {
+    if rep.cfg.prop == "C20" {
+        let mut hashes = std::collections::BTreeMap::new();
+        for case in rep.cfg.my_cases() {
+            if rep.full() {
+                break;
+            }
+            crate::report::guarded_det(rep, case, &mut hashes, &|rep: &mut Report| run_case(rep, case));
+        }
+        crate::report::push_transcripts(rep, &hashes);
+        return;
+    }
     for case in rep.cfg.my_cases() {
         if rep.full() {
             break;
